@@ -48,16 +48,19 @@ def hook_applied() -> bool:
 def model_runs(rep: Report, tier: str) -> Tuple[List[dict], List[dict]]:
     modes, ops = {"serial", "unordered", "ordered"}, {"lint", "fix"}
     inv = ["TypeOK", "SerialParallelAgree", "WriteAfterAdd"]
-    base = {"MaxN": 3, "Modes": modes, "Ops": ops}
+    base = {"MaxN": 3, "Modes": modes, "Ops": ops, "Renders": {False}}
+    both = {True, False}
     # 1. verification: Algo => Contract on every interleaving (history merged by the VIEW)
-    scopes = [(4, True)] if tier == "thorough" else [(4, False), (3, True)]
-    for mf, dup in scopes:
+    # (worker-side rendering everywhere; main-process rendering -- Feed/SkipAtSubmit -- on the smaller scope in quick)
+    scopes = [(4, True, both)] if tier == "thorough" else [(4, False, {False}), (3, True, {False}), (3, False, {True})]
+    for mf, dup, rend in scopes:
         m = run_tlc("Runner", cfg_text(constants={**base, "Kinds": STD_KINDS, "MaxFiles": mf, "AllowDup": dup,
-                                                   "EmitOn": False}, invariants=inv, view="NoHistory"),
+                                                   "Renders": rend, "EmitOn": False}, invariants=inv, view="NoHistory"),
                     timeout=3000, heap="8g", workers=_workers())
-        expect_model_ok(m, f"Runner Algo => Contract, <= {mf} files, dup={dup}")
+        expect_model_ok(m, f"Runner Algo => Contract, <= {mf} files, dup={dup}, main-process rendering in {sorted(rend)}")
         rep.model(m, f"every path list over <= {mf} of 4 file kinds{' (+ one named twice)' if dup else ''} x "
-                     f"pool 1..3 x serial/imap_unordered/imap x lint/fix, all interleavings")
+                     f"pool 1..3 x serial/imap_unordered/imap x lint/fix x main-process rendering {sorted(rend)}, "
+                     f"all interleavings")
     # 2. emission: terminal states with their completion orders, for replay
     emitted: List[dict] = []
     for mf, dup in ([(3, True)] if tier == "thorough" else [(3, False), (2, True)]):
@@ -77,7 +80,7 @@ def model_runs(rep: Report, tier: str) -> Tuple[List[dict], List[dict]]:
         raise MachineryError(f"Runner: emitted state fails the contract although the invariant held: {bad[0]}")
     # 3. prediction: a file whose rendering raises
     m2 = run_tlc("Runner", cfg_text(constants={**base, "Kinds": {"clean", "fixable", "raise"}, "MaxFiles": 3,
-                                                "AllowDup": False, "EmitOn": True}, invariants=["TypeOK"]),
+                                                "AllowDup": False, "Renders": both, "EmitOn": True}, invariants=["TypeOK"]),
                  timeout=3000, heap="8g", workers=_workers())
     expect_model_ok(m2, "Runner with a raising file (no contract invariant: verdicts are emitted)")
     rep.model(m2, "prediction: clean/fixable/raise, <= 3 files; contract clauses evaluated and emitted per terminal state")
@@ -85,7 +88,8 @@ def model_runs(rep: Report, tier: str) -> Tuple[List[dict], List[dict]]:
                                               if isinstance(r, dict) and "comp" in r})]
     for r in raising:
         predicted = bool(r["failing"])
-        expected = r["mode"] == "serial" and "raise" in r["tasks"]
+        # the exception escapes from the serial runner and from a pool that renders in the main process
+        expected = (r["mode"] == "serial" or r["mainrender"]) and "raise" in r["tasks"]
         if predicted != expected:
             raise MachineryError(f"Runner model: unexpected contract verdict on {r}")
     return emitted, raising
@@ -265,7 +269,8 @@ def build_trace(tid: str, run: dict, base: dict, spec: dict, kindof: Dict[str, s
     norm = lambda p: os.path.normpath(p)
     exp = expand(spec["paths"], kindof)
     tasks = [fids[f] for grp in exp for f in grp]
-    mode = "serial" if spec["n"] == 1 else ("ordered" if spec.get("runner") == "thread" else "unordered")
+    # lint_paths: `if files_count == 1: processes = 1` -- a single queued file always goes to the serial runner
+    mode = "serial" if spec["n"] == 1 or len(tasks) == 1 else ("ordered" if spec.get("runner") == "thread" else "unordered")
     hooked = hook and mode != "serial"
     args_idx: Dict[str, int] = {}
     for i, a in enumerate(spec["paths"]):
@@ -355,7 +360,7 @@ def make_jobs(tier: str, seed: int, emitted: List[dict], raising: List[dict], ro
     outcomes: Dict[str, list] = {}
     for r in emitted + raising:
         o = _algo_outcome(r)
-        lst = outcomes.setdefault(json.dumps([r["tasks"], r["n"], r["mode"], r["op"]]), [])
+        lst = outcomes.setdefault(json.dumps([r["tasks"], r["n"], r["mode"], r["op"], r["mainrender"]]), [])
         if o not in lst:
             lst.append(o)
 
@@ -370,7 +375,7 @@ def make_jobs(tier: str, seed: int, emitted: List[dict], raising: List[dict], ro
             r["_orig"] = orig
             t = (tlc or {}).get(r["id"])
             meta[r["id"]] = {"job": jid, "spec": r, "kindof": kindof, "tlc": t,
-                             "algo_outcomes": outcomes.get(json.dumps([t["tasks"], t["n"], t["mode"], t["op"]])) if t else None}
+                             "algo_outcomes": outcomes.get(json.dumps([t["tasks"], t["n"], t["mode"], t["op"], t["mainrender"]])) if t else None}
         jobs.append({"id": jid, "template": tpl, "overrides": overrides or {"dialect": "ansi"},
                      "runs": [{k: v for k, v in r.items() if not k.startswith("_")} for r in runs]})
 
@@ -393,7 +398,7 @@ def make_jobs(tier: str, seed: int, emitted: List[dict], raising: List[dict], ro
             picked.append(strata[k].pop())
         i += 1
     rz = [r for r in raising if "raise" in r["tasks"] and not (r["mode"] != "serial" and r["n"] == 1)
-          and len(r["tasks"]) >= 2]
+          and len(r["tasks"]) >= 2 and not r["mainrender"]]      # CLI / plain API runs render in the workers
     rnd.shuffle(rz)
     picked += [r for r in rz if r["mode"] == "serial"][:1] + [r for r in rz if r["mode"] == "unordered"][:2] \
         + [r for r in rz if r["mode"] == "ordered"][:1]
@@ -570,7 +575,8 @@ def run(tier: str, seed: int) -> int:
             if m["tlc"] is not None:
                 check_tlc_values(rep, rid, m, run_, sig, os.path.join(root, "tpl", _tpl_of(m["job"])))
         val = validate_traces("RunnerTrace", traces, constants={
-            "Kinds": set(), "MaxFiles": 0, "AllowDup": False, "MaxN": 0, "Modes": set(), "Ops": set(), "EmitOn": False})
+            "Kinds": set(), "MaxFiles": 0, "AllowDup": False, "MaxN": 0, "Modes": set(), "Ops": set(), "Renders": set(),
+            "EmitOn": False})
         rep.validation(val, "RunnerTrace")
         by = {t["id"]: t for t in traces}
         for r in val.rejected:
@@ -659,7 +665,8 @@ def replay(path, tier, seed):
         t = build_trace("run", res["run"], res["base"], dict(spec, _orig=spec["_orig"]), case["kindof"], hook,
                         Interner(), Interner(), Interner())
         val = validate_traces("RunnerTrace", [t], constants={
-            "Kinds": set(), "MaxFiles": 0, "AllowDup": False, "MaxN": 0, "Modes": set(), "Ops": set(), "EmitOn": False})
+            "Kinds": set(), "MaxFiles": 0, "AllowDup": False, "MaxN": 0, "Modes": set(), "Ops": set(), "Renders": set(),
+            "EmitOn": False})
         if val.rejected:
             print(f"VIOLATION property={PROP} replay={path}")
             print(f"  clause={val.rejected[0]['clause']} step={val.rejected[0]['step']}")
